@@ -833,7 +833,7 @@ def _rec_shape(ctx: Ctx, occ: FuncInfo) -> None:
     if gap_ok:
         ctx.ok("C14-D2", rec.where, "a later factor placed directly after the previous one is rejected when it is matched at a direction letter (gap condition of the containment lemma)", lp, rec)
     else:
-        ctx.violation("C14-D2", rec, lp, "consecutive factors may touch even when the next one is matched at a direction letter: the containment lemma requires a gap there; e.g. pinword_contains('1U', '11') is True although perm('1U') = 10 does not contain perm('11') = 01")
+        ctx.violation("C14-D2", rec, lp, "consecutive factors may touch even when the next one is matched at a direction letter: the containment lemma requires a gap there; e.g. pinword_contains('1U', '11') is True although perm('1U') = 10 does not contain perm('11') = 01", tag="gap-condition-missing")
     lp_view = ast.For(target=lp.target, iter=lp.iter, body=lp_body_wo_guard, orelse=[])
     stm = [unparse(s) for s in lp_view.body if not isinstance(s, ast.For)]
     if stm[:1] == [f"{res}.append({o})"] and stm[-1:] == [f"{res}.pop()"]:
